@@ -185,9 +185,11 @@ fn run_reconcile(l: &[Sx]) -> Vec<String> {
 fn run_scenario(line: &str) -> Vec<String> {
     let sx = sexpr::parse(line);
     let l = sx.list();
+    // `hydratecf`: children-first mode of the view builder (see harness/common/viewspec.rs) for the whole scenario
+    set_children_first(l[0].atom() == "hydratecf");
     let r = panic::catch_unwind(AssertUnwindSafe(|| match l[0].atom() {
         "client" => run_view(l, None),
-        "hydrate" => run_view(l, Some(unhex(l[1].atom()))),
+        "hydrate" | "hydratecf" => run_view(l, Some(unhex(l[1].atom()))),
         "reconcile" => run_reconcile(l),
         x => panic!("bad scenario {x}"),
     }));
@@ -199,7 +201,7 @@ fn run_scenario(line: &str) -> Vec<String> {
         Err(_) => {
             // for a hydration that panicked, keep the parsed server DOM it was given (second line)
             let mut v = vec![format!("PANIC {}", hex(&LAST_PANIC.with(|p| p.borrow().clone())))];
-            if l[0].atom() == "hydrate" {
+            if l[0].atom().starts_with("hydrate") {
                 v.push(format!("prenodes {}", LAST_PRE.with(|p| p.borrow().clone())));
             }
             v
